@@ -181,12 +181,14 @@ package dawn
 //@   ensures  changed-after-a-successful-body: (n_body == old(n_body) + 1 && body_ok && result == nil) ==> t.changed
 //@   ensures  restamped-after-execution: (n_body == old(n_body) + 1 && body_ok && result == nil && restamps(t.target)) ==> t.data != info.Data
 //@   callsite TargetUpToDate: assert skip-sound: !proj.always && depsUpToDate && upToDate && !info.Rerun
+//@   callsite upToDate: assert dependencies-are-blamed-only-by-name: depsUpToDate == (len(outOfDateDeps) == 0)
 //@   callsite TargetEvaluating: assert not-skippable: proj.always || !depsUpToDate || !upToDate || info.Rerun
 //@   callsite evaluate: assert after-evaluating: phase == 1 && !proj.dryrun
 //@   callsite upToDate: assert own-check-after-dependencies: n_depeval == old(n_depeval) + 1
 //@   modifies heap, n_depeval, phase, was_eval, n_body, body_ok, body_data, n_save, saved_rerun, saved_data, saved_deps
 //@   loop over engine.EvaluateTargets(): invariant phase == 0 && !was_eval && n_body == old(n_body) && n_save == old(n_save)
 //@   loop over engine.EvaluateTargets(): invariant depData != nil && proj != nil
+//@   loop over engine.EvaluateTargets(): invariant blamed-dependencies-are-named: depsUpToDate == (len(outOfDateDeps) == 0)
 //@   loop over engine.EvaluateTargets(): step dep-blamed: when !depsUpToDate && old(depsUpToDate) ensures !ok || dep.Target.(*dawn.runTarget).changed || newData != prevData
 //@   loop over engine.EvaluateTargets(): step dep-checked: when depsUpToDate ensures old(depsUpToDate) && ok && !dep.Target.(*dawn.runTarget).changed && newData == prevData && depData[label] == newData && dep.Error == nil
 
@@ -497,6 +499,7 @@ package dawn
 //@   deterministic
 //@   ensures function: (istype(x, "*starlark.Function") && result.3 == nil) ==> (result.0 == "dawn" && result.1 == "Function" && len(result.2) == 3 && result.2[0] == fdefaults(x.(*starlark.Function)) && result.2[1] == ffreevars(x.(*starlark.Function)) && result.2[2] == ifaceas("*starlark.FunctionCode", fcode(x.(*starlark.Function))))
 //@   ensures code: (istype(x, "*starlark.FunctionCode") && result.3 == nil) ==> (result.0 == "dawn" && result.1 == "FunctionCode" && len(result.2) == 3 && result.2[0] == cmodule(x.(*starlark.FunctionCode)) && result.2[1] == cglobals(x.(*starlark.FunctionCode)) && istype(result.2[2], "starlark.Bytes") && string(result.2[2].(starlark.Bytes)) == cbytecode(x.(*starlark.FunctionCode)))
+//@   ensures declines-every-other-kind: (!istype(x, "*dawn.function") && !istype(x, "*starlark.Builtin") && !istype(x, "*starlark.FunctionCode") && !istype(x, "*starlark.Function")) ==> result.3 != nil
 //@   ensures builtin-identified: (istype(x, "*starlark.Builtin") && result.3 == nil) ==> (result.0 == "dawn" && result.1 == "Builtin" && len(result.2) == 1 && istype(result.2[0], "starlark.String") && result.2[0].(starlark.String) == bname(x.(*starlark.Builtin)))
 //@   modifies heap
 
@@ -742,3 +745,10 @@ package dawn
 //@   requires f != nil && f.proj != nil && f.label != nil
 //@   retassert records-what-it-loaded: result == nil ==> (f.oldSum == info.Data && f.targetInfo.Data == info.Data && f.targetInfo.Rerun == info.Rerun)
 //@   modifies heap, n_json, json_failed
+
+// A path is ignored exactly when the compiled ignore set matches it (no path is exempt).
+//@ func (*dawn.Project).ignored
+//@   uses (*regexp.Regexp).MatchString variant named
+//@   requires proj != nil
+//@   ensures  exactly-the-ignore-set: result == (proj.ignore != nil && rematch(proj.ignore, path))
+
